@@ -216,6 +216,8 @@ def variants(prog, opts, rng):
         out.append({"mode": "tweak", "sels": [{"focus": dv, "ctx": []}], "supply": 555})
         out.append({"mode": "ovprobe", "sels": [{"focus": dv, "ctx": []}], "supply": 556})
         out.append({"mode": "tweak_cond", "sels": [{"focus": dv, "ctx": []}], "supply": 557})
+        out.append({"mode": "tweak", "sels": [{"focus": dv, "ctx": []}], "supply": 560, "decline_inside": True})
+        out.append({"mode": "total", "sels": [{"focus": dv, "ctx": [n for n in names if n != dv][:2]}]})
         if "var2" in prog["decl"]:
             out.append({"mode": "tweak", "sels": [{"focus": prog["decl"]["var2"], "ctx": []}], "supply": 558})
             out.append({"mode": "tweak2", "sels": [{"focus": dv, "ctx": []}, {"focus": prog["decl"]["var2"], "ctx": []}], "supply": 559})
@@ -257,7 +259,24 @@ def run_variant(runner, var, script):
             else:
                 ol = Overlay.tweaking({select(sel_text(runner.name, s), env=env): var["supply"] + i for i, s in enumerate(var["sels"])})
             with ol:
+                if var.get("decline_inside"):
+                    # a more recent overriding rule on the same variable that declines: the outer supply must still apply
+                    from ptera.utils import ABSENT
+                    with Overlay.rewriting({select(sel_text(runner.name, var["sels"][0]), env=env): (lambda args: ABSENT)}):
+                        rec["log"], rec["result"] = runner.call(mod, fn, script)
+                else:
+                    rec["log"], rec["result"] = runner.call(mod, fn, script)
+        elif var["mode"] == "total":
+            # focus-free probe naming the declared variable: its records must never contain the marker
+            env = {runner.name: fn}
+            s0 = var["sels"][0]
+            text = f"{runner.name}({', '.join([s0['focus']] + s0['ctx'])})"
+            recs = []
+            p = probing(text, env=env, raw=True)
+            p.subscribe(lambda d: recs.append(sorted([k, "[" + ",".join(rt2.enc(x) for x in c.values) + "]"] for k, c in d.items())))
+            with p:
                 rec["log"], rec["result"] = runner.call(mod, fn, script)
+            rec["streams"] = [recs]
         elif var["mode"] == "ovprobe":
             env = {runner.name: fn}
             p = probing(sel_text(runner.name, var["sels"][0]), env=env, overridable=True)
